@@ -158,7 +158,7 @@ Proof. vm_compute. repeat split. Qed.
 
 (* ---- the fuel of continue_whopper is never exhausted, whatever the number of whoppers ------------------------------- *)
 Lemma run_wrap_fuel : forall b k, snd k <> ROutOfFuel -> snd (run_wrap b k) <> ROutOfFuel.
-Proof. intros [id [|] | v | v |] k H; simpl; try exact H; discriminate. Qed.
+Proof. intros [id [| |] | v | v |] k H; simpl; try exact H; discriminate. Qed.
 Lemma scan_lt : forall l i j b, scan_wrap l i = Some (j, b) -> i <= j < i + length l.
 Proof.
   intros l i j b H. assert (S := scan_spec l i). rewrite H in S. destruct S as (pre & c & post & Hl & _ & _ & Hj).
